@@ -2,6 +2,7 @@
 from __future__ import annotations
 
 import ast
+import re
 
 from .pymodel import Program
 from .cymodel import CyProgram, X, pp, walk, rename_x, canonical_mapping, names_in
@@ -189,9 +190,23 @@ def v1(run: Run, cy: CyProgram):
                         f"{n} stores `{pp(st)}`: visibility is symmetric, both "
                         f"orientations must be written")
     # trivial neighbour links: guarded in the mv kernel, unconditional otherwise
-    triv_mv = [t for t in mv[1]["tests"] if "A[i, (i + 1)]" in " ".join(t[1])]
-    ok = len(triv_mv) == 1 and "mv_indices[i]" in triv_mv[0][0] and \
-        "mv_indices[(i + 1)]" in triv_mv[0][0]
+    # (a neighbour store is A[p, q] with q = p + 1, however p is spelled: the
+    # guard must test the mask at both p and q)
+    def _neighbour_guard_ok(test_src, stores_src):
+        for m_ in re.finditer(r"A\[([^,\]]+), ([^\]]+)\]", stores_src):
+            p_, q_ = m_.group(1).strip(), m_.group(2).strip()
+
+            def off(a, b):
+                # b == a + 1 as text forms: "(a + 1)" / a == "(b - 1)"
+                return b.replace(" ", "") in (f"({a}+1)".replace(" ", ""),
+                                              f"(1+{a})".replace(" ", "")) or \
+                    a.replace(" ", "") == f"({b}-1)".replace(" ", "")
+            if off(p_, q_) or off(q_, p_):
+                return f"mv_indices[{p_}]" in test_src and f"mv_indices[{q_}]" in test_src
+        return None
+    triv_mv = [t for t in mv[1]["tests"]
+               if _neighbour_guard_ok(t[0], " ".join(t[1])) is not None]
+    ok = len(triv_mv) == 1 and _neighbour_guard_ok(triv_mv[0][0], " ".join(triv_mv[0][1]))
     run.oblige("V1", "natural:trivial-links-guard", ok)
     if not ok:
         run.add("V1", "natural/trivial-links-guard", mv[0].where,
@@ -357,6 +372,13 @@ def v3(run: Run, cy: CyProgram):
         lo1 = dict(lo)
         lo1[""] = lo1.get("", 0) + 1
         okd = ja in (lo, lo1) and jb == hi and ka == lo and kb == {"j": 1}
+        if not okd:
+            # the same pairs with the earlier node in the outer loop:
+            # outer in [lo, hi) or [lo, hi-1), inner in [outer+1, hi)
+            hi1 = dict(hi)
+            hi1[""] = hi1.get("", 0) - 1
+            hi1 = {k_: v_ for k_, v_ in hi1.items() if v_ != 0}
+            okd = ja == lo and jb in (hi, hi1) and ka == {"j": 1, "": 1} and kb == hi
         run.oblige("V3", f"{kname}:domain", okd, sample={"loops": loops})
         if not okd:
             run.add("V3", f"{kname}/domain", f"{f.module.relpath}:{s.line}",
